@@ -161,6 +161,20 @@ def _format_help_text(description):
     return '\n'.join(formatted_lines)
 
 
+def _format_check_str(check_str):
+    """Render a rule value as a YAML (and JSON) scalar or flow sequence.
+
+    A plain check string is simply double quoted. A value in the old
+    list-of-lists syntax, or a string containing characters which need
+    escaping inside double quotes, goes through the JSON serializer, whose
+    output is valid YAML as well.
+    """
+    if isinstance(check_str, str) and not any(
+            c in '"\\' or c < ' ' for c in check_str):
+        return '"%s"' % check_str
+    return jsonutils.dumps(check_str)
+
+
 def _format_rule_default_yaml(default, include_help=True, comment_rule=True,
                               add_deprecated_rules=True):
     """Create a yaml node from policy.RuleDefault or policy.DocumentedRuleDefault.
@@ -173,9 +187,9 @@ def _format_rule_default_yaml(default, include_help=True, comment_rule=True,
                                  text.
     :returns: A string containing a yaml representation of the RuleDefault
     """  # noqa: E501
-    text = ('"%(name)s": "%(check_str)s"\n' %
+    text = ('"%(name)s": %(check_str)s\n' %
             {'name': default.name,
-             'check_str': default.check_str})
+             'check_str': _format_check_str(default.check_str)})
 
     if include_help:
         op = ""
@@ -259,9 +273,9 @@ def _format_rule_default_json(default):
     :param default: A policy.RuleDefault or policy.DocumentedRuleDefault object
     :returns: A string containing a json representation of the RuleDefault
     """  # noqa: E501
-    return ('"%(name)s": "%(check_str)s"' %
+    return ('"%(name)s": %(check_str)s' %
             {'name': default.name,
-             'check_str': default.check_str})
+             'check_str': _format_check_str(default.check_str)})
 
 
 def _sort_and_format_by_section(policies, output_format='yaml',
@@ -511,9 +525,9 @@ def _convert_policy_json_to_yaml(namespace, policy_file, output_file=None):
     if file_policies:
         yaml_format_rules.append(extra_rules_text)
     for file_rule, check_str in file_policies.items():
-        rule_text = ('"%(name)s": "%(check_str)s"\n' %
+        rule_text = ('"%(name)s": %(check_str)s\n' %
                      {'name': file_rule,
-                      'check_str': check_str})
+                      'check_str': _format_check_str(check_str)})
         yaml_format_rules.append(rule_text)
 
     if output_file:
